@@ -272,6 +272,12 @@ ADDED7 = {
  "C18": "Round 12: every configuring method (not only the constructor) is a source of configuration that load must restore (C18.d); pickling of the typed point classes rebuilds an object of the same class (C18.i).",
  "C20": "Round 12 (level other): every call of the layout helpers passes the dimension of the array (C20.b).",
 }
+# round 13 (DESIGN.md 7.18)
+ADDED8 = {
+ "C03": "Round 13: a cache key that reads the data only through a projection of its shape (.size, .ndim, len()) does not cover a value computed from .shape (C03.a, J2 refined; applies to every hidden-state rule).",
+ "C15": "Round 13: each request builds its own arrays -- no functools cache (decorator or module-level rebinding) around the three table functions (C15.d); the folded tables are those of every request, not only the first.",
+ "C17": "Round 13: an augmented assignment to a metadata list (x.date += [...]) is an in-place write into a possibly shared list (C17.b).",
+}
 GENERIC2 = " For every property: no default-argument object is modified in place, and optional parameters (default None) of the anchored modules are compared with None, never tested by truth value."
 
 NOT_YET = {}
@@ -283,7 +289,7 @@ def main():
         pid = p["id"]
         if pid in CLAIMED:
             cat, tech, text, note = CLAIMED[pid]
-            text = text + (" " + ADDED[pid] if pid in ADDED else "") + (" " + ADDED2[pid] if pid in ADDED2 else "") + (" " + ADDED3[pid] if pid in ADDED3 else "") + (" " + ADDED4[pid] if pid in ADDED4 else "") + (" " + ADDED5[pid] if pid in ADDED5 else "") + (" " + ADDED6[pid] if pid in ADDED6 else "") + (" " + ADDED7[pid] if pid in ADDED7 else "") + COMMON + GENERIC2 + POLICY
+            text = text + (" " + ADDED[pid] if pid in ADDED else "") + (" " + ADDED2[pid] if pid in ADDED2 else "") + (" " + ADDED3[pid] if pid in ADDED3 else "") + (" " + ADDED4[pid] if pid in ADDED4 else "") + (" " + ADDED5[pid] if pid in ADDED5 else "") + (" " + ADDED6[pid] if pid in ADDED6 else "") + (" " + ADDED7[pid] if pid in ADDED7 else "") + (" " + ADDED8[pid] if pid in ADDED8 else "") + COMMON + GENERIC2 + POLICY
             checks.append({
                 "property_id": pid,
                 "quick_cmd": f"./check {pid} --tier quick",
